@@ -418,7 +418,7 @@ var files = ev.NewCheck("C09", "files",
 func TestPropFiles(t *testing.T) { files.Rapid(t, 100, 3000) }
 
 var big = ev.NewCheck("C09", "big-payload-truncations",
-	"enumeration: files whose LAST track holds one sysex / escape / meta payload of 65537, 70000 or 140000 bytes (beyond the 64 KiB block size of the reader), preceded by a small track and an unknown chunk; whole, and truncated inside the payload at offsets around 4 KiB, 64 KiB, the middle and the end; each read like in 'files' (byte-wise, single read, bufio, pipe, every selected split point, block partitions of 4096 and 65536 bytes, each with and without the last bytes delivered together with io.EOF, with and without smf.Log); same differential oracle",
+	"enumeration: files whose LAST track holds one sysex / escape / meta payload of 65537, 70000 or 140000 bytes (beyond the 64 KiB block size of the reader), preceded by a small track and an unknown chunk; whole, and truncated exactly behind the payload's length field, one byte into the payload, at its end, and inside it at offsets around 4 KiB, 64 KiB and the middle; each read like in 'files' (byte-wise, single read, bufio, pipe, every selected split point, block partitions of 4096 and 65536 bytes, each with and without the last bytes delivered together with io.EOF, with and without smf.Log); same differential oracle",
 	nil, run)
 
 func TestEnumBigPayloads(t *testing.T) {
@@ -443,7 +443,9 @@ func TestEnumBigPayloads(t *testing.T) {
 			}}
 			full := smfref.Build(f)
 			start := len(full) - n - 12 // a little before the payload
-			for _, off := range []int{-1, start + 14, start + 4095, start + 4108, start + 65535 + 12, start + 65536 + 12, start + 65537 + 12, start + n/2, len(full) - 9, len(full) - 1} {
+			// exactly behind the length field of the big payload, one byte into it, its last byte
+			ps := bytes.Index(full, e.Data[:64])
+			for _, off := range []int{ps, ps + 1, ps - 1, ps + n - 1, ps + n, -1, start + 14, start + 4095, start + 4108, start + 65535 + 12, start + 65536 + 12, start + 65537 + 12, start + n/2, len(full) - 9, len(full) - 1} {
 				i++
 				if i%ev.Shards() != ev.Shard() {
 					continue
